@@ -4,7 +4,7 @@ from __future__ import annotations
 
 from vf.cond import cond
 
-from .common import DictLoader, Environment, LiquidError, concrete_int, untraced
+from .common import drive, DictLoader, Environment, LiquidError, concrete_int, untraced
 
 from liquid2.loader import BaseLoader, TemplateSource  # noqa: E402
 from liquid2.shopify import Environment as ShopifyEnvironment  # noqa: E402
@@ -58,7 +58,7 @@ def _mk(i0: int, i1: int, i2: int, n: int) -> dict:
     return {"a": a, "n": [[i1, i0], a], "d": {"k": [i2, i0], "j": i1}, "z": i0}
 
 
-def _role_render(src: str, role: int, data: dict) -> None:
+def _role_render(src: str, role: int, data: dict, is_async: bool = False) -> None:
     def build():  # object graph construction is concrete; `data` (symbolic) is only stored
         if role == 0:
             e = ShopifyEnvironment(globals=data)
@@ -71,23 +71,26 @@ def _role_render(src: str, role: int, data: dict) -> None:
         return ENV.from_string(src), data
 
     t, args = untraced(build)
-    t.render(**args)
+    if is_async:
+        drive(t.render_async(**args))
+    else:
+        t.render(**args)
 
 
 @cond(
     pre=["0 <= i0 <= 2", "0 <= i1 <= 2", "0 <= i2 <= 2", "0 <= n <= 3", "0 <= role <= 3"],
     timeout=300,
     shard={"p": list(range(len(PROGRAMS)))},
-    covers="after any render (also one that fails at a data-dependent division by zero) every container supplied as environment globals, template globals, loader matter or render arguments is deep-equal to an independent snapshot: sort/sort_natural/sort_numeric/reverse/concat/uniq/compact/slice/join/map/where/reject/sum/find/has/first/last/size, for with offset/limit/reversed/continue, tablerow, shadowing assign/capture, nested lists and hashes, lambda and keyed forms",
+    covers="after any render (also one that fails at a data-dependent division by zero) every container supplied as environment globals, template globals, loader matter or render arguments is deep-equal to an independent snapshot: sort/sort_natural/sort_numeric/reverse/concat/uniq/compact/slice/join/map/where/reject/sum/find/has/first/last/size, for with offset/limit/reversed/continue, tablerow, shadowing assign/capture, nested lists and hashes, lambda and keyed forms; render() and render_async()",
     bounds="list a of up to 3 ints 0..2, nested list n, hash d built from the same ints; 4 roles (solver choice); 9 programs",
-    grid=lambda: [(p, 2, 0, 1, 3, r) for p in range(len(PROGRAMS)) for r in range(4)] + [(7, 0, 1, 2, 3, r) for r in range(4)],
+    grid=lambda: [(p, 2, 0, 1, 3, r, a) for p in range(len(PROGRAMS)) for r in range(4) for a in (False, True)] + [(7, 0, 1, 2, 3, r, True) for r in range(4)],
 )
-def d_immutable(p: int, i0: int, i1: int, i2: int, n: int, role: int) -> bool:
+def d_immutable(p: int, i0: int, i1: int, i2: int, n: int, role: int, is_async: bool) -> bool:
     n = concrete_int(n, 0, 3)
     data = _mk(i0, i1, i2, n)
     snapshot = _mk(i0, i1, i2, n)
     try:
-        _role_render(PROGRAMS[p], concrete_int(role, 0, 3), data)
+        _role_render(PROGRAMS[p], concrete_int(role, 0, 3), data, bool(is_async))
     except LiquidError:
         pass
     except Exception:  # noqa: BLE001
